@@ -291,6 +291,16 @@ def check_pair(part, db, qt, u, v, c, full=True):
             okc = r.GetUnit() == u and r.GetCategory() == c and close(r.GetValues()[1], back, max(abs(back), abs(conv(qt, v, u, 0.0))), TOL) and all(r.GetValues()[j] == X[j] for j in (0, 2, 3))
         if not okc:
             bad("FixedArray.ChangingIndex(use_value_unit=%r)" % uvu, repr(r), r0)
+    # ... the "change only the unit" pair (None, v) at every index: the whole array re-expressed in v, and the pair
+    # (amount, v)
+    for idx in (0, 2, -1):
+        n += 2
+        r = fa.ChangingIndex(idx, (None, v))
+        if not (obj_ok(r) and all(same(r.GetValues()[j], r0[j], j) for j in range(4))):
+            bad("FixedArray.ChangingIndex(%d, (None, v))" % idx, repr(r), r0)
+        r = fa.ChangingIndex(idx, (r0[1], v))
+        if not (obj_ok(r) and r.GetValues()[idx] == r0[1] and all(same(r.GetValues()[j], r0[j], j) for j in range(4) if j != idx % 4)):
+            bad("FixedArray.ChangingIndex(%d, (amount, v))" % idx, repr(r), r0)
     # R8 unit-system manager
     mgr = UnitSystemManager()
     mgr.AddUnitSystem("sys", "caption", {c: v})
